@@ -429,6 +429,15 @@ Definition g_fsprog (x : sexp) : option fsprog :=
   | _ => None
   end.
 
+(* ---------- normal form ----------
+   The order of data_types / codata_types is inherited from fun's CheckedProgram, where it comes
+   from iterating a HashMap and so differs between runs of the Rust code.  Type names are unique
+   (ids of type names are always 0); sorting by name gives a canonical form for comparisons. *)
+Definition norm_cprog (p : cprog) : cprog :=
+  mkcp (cpdefs p) (sort_by (fun t => fst (ctname t)) (cpdata p)) (sort_by (fun t => fst (ctname t)) (cpcodata p)) (cpmax p).
+Definition norm_fsprog (p : fsprog) : fsprog :=
+  mkfsp (fspdefs p) (sort_by (fun t => fst (ctname t)) (fspdata p)) (sort_by (fun t => fst (ctname t)) (fspcodata p)) (fspmax p).
+
 (* ---------- size: number of term / argument-free statement / clause nodes ----------
    every constructor of cterm, cstmt, cclause (resp. fsterm, fsstmt, fsclause) counts 1; carg
    wrappers, identifiers, types and contexts count 0; a def counts 1 + its body; a program is the
